@@ -22,7 +22,7 @@ TABLE = [
     ("tls_record::parse_tls_raw_record", G.raw_record, ["C02", "C06"]),
     ("tls_record::parse_tls_encrypted", G.encrypted_record, ["C02", "C06"]),
     ("tls_record::parse_tls_plaintext", G.plaintext_record, ["C02", "C03", "C06"]),
-    ("tls_record::parse_tls_record_with_header", G.record_content_standalone, ["C03"]),
+    ("tls_record::parse_tls_record_with_header", G.record_content_standalone, ["C03", "C07"]),
     ("tls_record::tls_parser", G.plaintext_record, ["C16"]),
     ("tls_record::tls_parser_many", G.plaintext_records, ["C16"]),
     ("tls_message::parse_tls_message_changecipherspec", G.ccs, ["C03"]),
